@@ -58,7 +58,7 @@ Inductive dec_field := DEmpty | DBad | DVal (d : Z).
 Inductive policy_msg :=
 | PAddRewardPeriods (ps : list rp_msg)
 | PAddLppd (ps : list lppd_period)
-| PUpdatePmtpParams (gov : dec_field) (epoch_len start end_ : Z)
+| PUpdatePmtpParams (gov : dec_field) (epoch_len start end_ : Z) (br : option Z)
 | PModifyPmtpRates (block running : dec_field) (end_policy : bool)
 | PUpdateLPParams (max epoch : Z) (active : bool)
 | PModifyLPRates (current : Z)
@@ -87,7 +87,43 @@ Definition lppd_valid (p : lppd_period) : bool :=
 Definition in_window (s : policy_state) : bool :=
   (pol_height s <=? pm_end (pol_pmtp s)) && (pm_start (pol_pmtp s) <=? pol_height s).
 
-Definition update_pmtp_params (s : policy_state) (gov : dec_field) (epoch_len start end_ : Z) : Outcome policy_state :=
+(* Dec.Power with the overflow panics of Dec.Mul *)
+Fixpoint Dpower_loop (fuel : nat) (d tmp : Z) (i : Z) : Outcome (Z * Z) :=
+  match fuel with
+  | O => Ok (d, tmp)
+  | S f =>
+    if i <=? 1 then Ok (d, tmp)
+    else
+      tmp' <- (if Z.odd i then Dmul tmp d else Ok tmp) ;;
+      d' <- Dmul d d ;;
+      Dpower_loop f d' tmp' (i / 2)
+  end.
+Definition Dpower (d p : Z) : Outcome Z :=
+  if p =? 0 then Ok PREC
+  else '(d', tmp) <- Dpower_loop 64 d PREC p ;; Dmul d' tmp.
+
+(* PolicyCalculations *)
+Definition policy_calc (pm : pmtp_state) (height : Z) : Outcome pmtp_state :=
+  base <- ck_dec (PREC + pm_block_rate pm) ;;
+  p <- Dpower base (height - pm_start pm + 1) ;;
+  r1 <- ck_dec (p - PREC) ;;
+  r <- ck_dec (r1 + pm_inter pm) ;;
+  Ok (pm <| pm_running := r |>).
+
+(* the running rate a policy reaches on its last block, as PolicyCalculations computes it there, when PolicyStart gives it the
+   block rate [b] *)
+Definition policy_end_rate (pm : pmtp_state) (b : Z) : Outcome Z :=
+  pm' <- policy_calc (pm <| pm_block_rate := b |>) (pm_end pm) ;; Ok (pm_running pm').
+(* UpdatePmtpParams: a policy of negative rate lowers the running rate until its last block; one that would bring it to -1 or
+   below is refused. [br] is what PmtpPeriodBlockRate (float arithmetic, printed with 18 decimals) returns for the policy *)
+Definition end_rate_ok (pm : pmtp_state) (br : option Z) : Outcome unit :=
+  if 0 <=? pm_gov pm then Ok tt else
+  match br with
+  | None => Err 3
+  | Some b => if 0 <=? b then Ok tt else r <- policy_end_rate pm b ;; if r <=? - PREC then Err 5 else Ok tt
+  end.
+
+Definition update_pmtp_params (s : policy_state) (gov : dec_field) (epoch_len start end_ : Z) (br : option Z) : Outcome policy_state :=
   (* ValidateBasic *)
   if epoch_len <=? 0 then Err 1 else
   if start <? 0 then Err 1 else
@@ -99,9 +135,10 @@ Definition update_pmtp_params (s : policy_state) (gov : dec_field) (epoch_len st
   if start <=? pol_height s then Err 2 else
   let pm := pol_pmtp s <| pm_start := start |> <| pm_end := end_ |> <| pm_epoch_len := epoch_len |> in
   match gov with
-  | DEmpty => Ok (s <| pol_pmtp := pm |>)
+  | DEmpty => u <- end_rate_ok pm br ;; Ok (s <| pol_pmtp := pm |>)
   | DBad => Err 3
-  | DVal g => if g <=? - PREC then Err 4 else Ok (s <| pol_pmtp := pm <| pm_gov := g |> |>)
+  | DVal g => if g <=? - PREC then Err 4 else
+              let pm' := pm <| pm_gov := g |> in u <- end_rate_ok pm' br ;; Ok (s <| pol_pmtp := pm' |>)
   end.
 
 Definition modify_pmtp_rates (s : policy_state) (block running : dec_field) (end_policy : bool) : Outcome policy_state :=
@@ -139,7 +176,7 @@ Definition policy_handle (s : policy_state) (m : policy_msg) : Outcome policy_st
   match m with
   | PAddRewardPeriods ps => if forallb rp_valid ps then Ok (s <| pol_rewards := map rp_of_msg ps |>) else Err 1
   | PAddLppd ps => if forallb lppd_valid ps then Ok (s <| pol_lppd := ps |>) else Err 1
-  | PUpdatePmtpParams g el st en => update_pmtp_params s g el st en
+  | PUpdatePmtpParams g el st en br => update_pmtp_params s g el st en br
   | PModifyPmtpRates b r e => modify_pmtp_rates s b r e
   | PUpdateLPParams mx ep a => update_lp_params s mx ep a
   | PModifyLPRates c => modify_lp_rates s c
@@ -158,21 +195,6 @@ Definition lp_begin (l : lp_state) : Outcome lp_state :=
   else cur <- uint_add (lps_current l) repl ;; Ok (l <| lps_current := cur |>).
 
 (* ---------- BeginBlocker: ratio shifting ---------- *)
-(* Dec.Power with the overflow panics of Dec.Mul *)
-Fixpoint Dpower_loop (fuel : nat) (d tmp : Z) (i : Z) : Outcome (Z * Z) :=
-  match fuel with
-  | O => Ok (d, tmp)
-  | S f =>
-    if i <=? 1 then Ok (d, tmp)
-    else
-      tmp' <- (if Z.odd i then Dmul tmp d else Ok tmp) ;;
-      d' <- Dmul d d ;;
-      Dpower_loop f d' tmp' (i / 2)
-  end.
-Definition Dpower (d p : Z) : Outcome Z :=
-  if p =? 0 then Ok PREC
-  else '(d', tmp) <- Dpower_loop 64 d PREC p ;; Dmul d' tmp.
-
 (* PolicyStart; [br] is what fmt.Sprintf("%.18f", math.Pow(1+gov, epochs/blocks) - 1) parses to *)
 Definition policy_start (pm : pmtp_state) (br : option Z) : Outcome pmtp_state :=
   let blocks := pm_end pm - pm_start pm + 1 in
@@ -182,14 +204,6 @@ Definition policy_start (pm : pmtp_state) (br : option Z) : Outcome pmtp_state :
   | None => Panic                                          (* NaN / Inf does not parse *)
   | Some b => Ok (pm <| pm_block_rate := b |> <| pm_epochs := epochs |> <| pm_blocks := pm_epoch_len pm |>)
   end.
-
-(* PolicyCalculations *)
-Definition policy_calc (pm : pmtp_state) (height : Z) : Outcome pmtp_state :=
-  base <- ck_dec (PREC + pm_block_rate pm) ;;
-  p <- Dpower base (height - pm_start pm + 1) ;;
-  r1 <- ck_dec (p - PREC) ;;
-  r <- ck_dec (r1 + pm_inter pm) ;;
-  Ok (pm <| pm_running := r |>).
 
 Definition pmtp_begin (pm0 : pmtp_state) (h : Z) (br : option Z) : Outcome pmtp_state :=
   pm1 <- (if (h =? pm_start pm0) && (pm_epochs pm0 =? 0) && (pm_blocks pm0 =? 0) then policy_start pm0 br else Ok pm0) ;;
